@@ -138,6 +138,13 @@ def run_world(params, res, monitor):
 def monitor22(w, rec, res, params):
     desc = dict(layout=params["layout"], reg=params["reg"],
                 state=rec["state"], frame=rec["frame"])
+    if rec.get("random_dependence"):
+        rv, r2 = rec["random_dependence"]
+        res.violation("unexplained:outcome-depends-on-the-random-number",
+                      f"with the loss simulator off, the random number "
+                      f"{rv:#x} changes the outcome (action {r2} instead of "
+                      f"{rec['action']})", case=desc)
+        return
     if rec["action"] not in (dispatch.TX, dispatch.PASS):
         res.violation("unexplained:dropped-frame",
                       f"dispatcher returned action {rec['action']}",
